@@ -88,6 +88,44 @@ def score_residual(scn, gam, X, y, w):
     return float(np.max(np.abs(lhs - rhs) / scale.max())), keep
 
 
+
+def spread_probe(res, rng):
+    """converged LinearGAM fits whose terms are penalised on wildly different scales (lam = 1e-3 beside lam = 1e9 .. 1e15): the
+    gradient of the penalised criterion in the block of the lightly penalised term involves only O(1) quantities, so it is decided by
+    binary64 although the whole system is too ill-conditioned for the global residual checks.  The ridge is the one the code used:
+    sqrt(eps) plus what the Cholesky escalation added (recorded by the fit in `_constraint_l2`)."""
+    import contextlib
+    import io
+    from pygam import LinearGAM, s
+    for rep in range(2 if res.tier == 'quick' else 8):
+        seed = rng.randrange(10 ** 6)
+        r = np.random.RandomState(seed)
+        n = r.randint(80, 200)
+        X = r.uniform(0, 1, size=(n, 2))
+        y = np.sin(r.uniform(5, 12) * X[:, 0]) + 0.5 * X[:, 1] + 0.1 * r.randn(n)
+        m1 = int(r.randint(8, 21))
+        for lam_hi in (1e9, 1e12, 1e15):
+            gam = LinearGAM(s(0, n_splines=m1, lam=1e-3) + s(1, n_splines=int(r.randint(6, 12)), lam=lam_hi), fit_intercept=False)
+            with contextlib.redirect_stdout(io.StringIO()), warnings.catch_warnings():
+                warnings.simplefilter('ignore')
+                gam.fit(X, y)
+            res.case(('lam-spread', seed, lam_hi))
+            res.count('lam-spread probe: lam_hi=%g' % lam_hi)
+            if not (gam.logs_['diffs'][-1] < gam.tol) or not np.isfinite(gam.coef_).all():
+                res.count('lam-spread probe: not converged (not judged)')
+                continue
+            B = gam.terms.build_columns(X).toarray()
+            P = gam.terms.build_penalties().toarray()
+            ridge = SQRT_EPS + (gam._constraint_l2 - 1e-3)
+            g = B.T @ (y - B @ gam.coef_) - P @ gam.coef_ - ridge * gam.coef_
+            rel = float(np.linalg.norm(g[:m1]) / (np.linalg.norm(B[:, :m1].T @ y) + 1e-300))
+            if not (rel <= 1e-5):
+                res.violations.append(dict(what='converged fit is not a stationary point: gradient of the penalised criterion in the block of a lightly penalised term '
+                                                'beside a heavily penalised one', finding=None,
+                                           input=dict(cls='LinearGAM', terms='s(0, n_splines=%d, lam=1e-3) + s(1, lam=%g), fit_intercept=False' % (m1, lam_hi),
+                                                      data_seed=seed, n=int(n), X=X.tolist(), y=y.tolist()),
+                                           observed=dict(relative_gradient_block0=rel, ridge=ridge), expected='<= 1e-5 (unchanged tree: <= 2e-9)'))
+
 F_MASK = 'C01-masked-rows-not-stationary'
 
 
@@ -248,6 +286,10 @@ def run(res):
         mask_witness(res)
     except Exception as e:
         res.notes.append('mask witness could not be evaluated: %s: %s' % (type(e).__name__, e))
+    try:
+        spread_probe(res, rng)
+    except Exception as e:
+        res.notes.append('lam-spread probe could not be evaluated: %s: %s' % (type(e).__name__, e))
     with common.CaseDir(PROP) as cd:
         failing, errors = common.run_bool_cases(cd, HEADER, cases, 'check_case', shard=6)
         codes = {}
